@@ -1,4 +1,5 @@
 import GoRes.Model.Index
+import GoRes.Model.Txn
 import GoRes.Model.StoreMap
 import GoRes.Model.Lock
 import GoRes.Driver.Wire
@@ -261,17 +262,26 @@ def run (st : St) (args : List Str) (impl : String) : St × String × String × 
       -- the harness wipes/garbles index entries directly in the database; the model forgets them
       ({ st with db := [] }, "ok", "-", "corrupt")
     else if c = str "initrace" then
-      -- a Create of the seed id commits while Init's transaction is open. Init has read that key, so its
-      -- commit conflicts and Init fails as a whole (nothing seeded, not marked); the acknowledged Create
-      -- stays. When the store is already initialised Init returns before it gets there; when the id
-      -- already exists the Create is a duplicate and Init only sets its mark.
+      -- a Create of the seed id commits while Init's transaction is open: the outcome is computed by the
+      -- transaction model (`Model/Txn.lean`, theorems `init_keeps_concurrent_writes`, `init_failed_inert`,
+      -- `init_serializable` in Props/C12).  The hook is only reached when the store is not yet initialised;
+      -- the racing Create is acknowledged only when the id is free.
       let user : Val := ⟨str "user", str "g"⟩
-      if st.seeded then (st, "init=ok create=none", "init=ok create=none", "initrace-again")
-      else if (aget st.vals (str "s1")).isSome then
-        ({ st with seeded := true }, "init=ok create=err:dup", "init=ok create=err:dup", "initrace-dup")
-      else
-        ({ st with vals := aset st.vals (str "s1") user, tasks := st.tasks ++ [⟨str "s1", none, some user⟩] },
-          "init=err create=ok", "init=err create=ok", "initrace-conflict")
+      let seedV : Val := ⟨str "seed", str "g"⟩
+      let s1 := str "s1"
+      let marker := str "$init"
+      let db0 : Txn.DB Val := ({} : Txn.DB Val).putAll
+        (st.vals.map (fun e => (e.1, some e.2)) ++ (if st.seeded then [(marker, some seedV)] else []))
+      let reached := !st.seeded
+      let createOk := reached && (aget st.vals s1).isNone
+      let (db', ok, created) := Txn.initRun db0 marker seedV [(s1, seedV)] (if createOk then [(s1, some user)] else [])
+      let out := "init=" ++ (if ok then "ok" else "err") ++ " create=" ++
+        (if !reached then "none" else if createOk then "ok" else "err:dup")
+      let vals' := match db'.get s1 with | some v => aset st.vals s1 v | none => st.vals.filter (·.1 != s1)
+      let st' := { st with vals := vals', seeded := (db'.get marker).isSome,
+                           tasks := st.tasks ++ (if createOk then [⟨s1, none, some user⟩] else []) ++
+                                    created.map (fun e => ⟨e.1, none, some e.2⟩) }
+      (st', out, out, if !reached then "initrace-again" else if createOk then "initrace-conflict" else "initrace-dup")
     else if c = str "init" then
       -- Init seeds s1 once
       if st.seeded then (st, "ok cbs=-", "ok cbs=-", "init-again")   -- C12: seeds exactly once
